@@ -241,6 +241,13 @@ def split_16(r, probs, name):
         # the same split written as a constructor: bytearray((hi, lo)) / bytearray([hi, lo]) / bytearray(divmod(x, 256)),
         # or delegated to encode16Int (which is checked on its own)
         for x in ast.walk(r.node):
+            if isinstance(x, ast.Assign) and len(x.targets) == 1 and isinstance(x.targets[0], ast.Subscript) and isinstance(x.targets[0].slice, ast.Slice) \
+                    and x.targets[0].slice.step is None and (x.targets[0].slice.lower is None or r.fold(x.targets[0].slice.lower) == (True, 0)) \
+                    and x.targets[0].slice.upper is not None and r.fold(x.targets[0].slice.upper) == (True, 0) \
+                    and isinstance(x.value, (ast.Tuple, ast.List)) and len(x.value.elts) == 2:
+                # buf[:0] = (hi, lo): the two octets slid in front of what the buffer holds
+                st = {0: (x.value.elts[0], "<insert>", x), 1: (x.value.elts[1], "<insert>", x)}
+                r.inserted_pair = x
             if isinstance(x, ast.Call) and isinstance(x.func, ast.Name) and x.func.id == "bytearray" and len(x.args) == 1 and not x.keywords:
                 a = x.args[0]
                 if isinstance(a, (ast.Tuple, ast.List)) and len(a.elts) == 2:
@@ -490,7 +497,8 @@ def check_primitives(prog):
             (x.func.id == "bytearray" and len(x.args) == 1 and isinstance(x.args[0], (ast.Tuple, ast.List)) and len(x.args[0].elts) == 2)
             or (x.func.id == "bytearray" and len(x.args) == 1 and isinstance(x.args[0], ast.Call) and isinstance(x.args[0].func, ast.Name)
                 and x.args[0].func.id == "divmod" and len(x.args[0].args) == 2)
-            or x.func.id == "encode16Int") for x in ast.walk(r.node)) or getattr(r, "packed", None) is not None
+            or x.func.id == "encode16Int") for x in ast.walk(r.node)) or getattr(r, "packed", None) is not None \
+            or getattr(r, "inserted_pair", None) is not None
         if body_first is not None and two:
             W = 2
             appended = []
